@@ -214,8 +214,8 @@ def _r20_3(res, P, cfgname):
                 # handing the attribute to another generator of the macro crate (quote_ubig,
                 # quote_ibig, quote_words, quote_sign, quote_bytes) carries it as well: those
                 # helpers are judged on their own
-                if cp.startswith("dashu_macros::parse::") and ("::quote_" in cp):
-                    tok_blocks.add(bb)
+                if cp.startswith("dashu_macros::parse::") and ("::quote_" in cp) and body["bbs"][bb]["t"]["d"]["l"] == 0:
+                    tok_blocks.add(bb)      # the helper's tokens are returned directly
             # generator branches that are *selected by* the attribute (e.g. `if relaxed {..}`)
             # carry it by construction: a switch on it counts as a use
             for i, blk in enumerate(body["bbs"]):
